@@ -23,7 +23,7 @@ RULE = ("every family at realistic sizes (php 30x25, gphp on 40x30 left-regular 
 ASSUMPTIONS = ["documented variable counts are the closed forms listed in C10.py (taken from docstrings / help texts)",
                "clauses inserted with check=False by user code are outside the statement; the library's own check=False insertions are watched"]
 REQUIRED = ["hook_clause_events", "hook_group_events", "final_scans", "documented_counts_checked", "chains_applied",
-            "cli_entries", "opb_entries", "interleavings", "lib_entries"]
+            "cli_entries", "opb_entries", "interleavings", "lib_entries", "builder_insertions", "cli_documented_counts_checked"]
 CASE_TIMEOUT = {"quick": 300, "thorough": 1800}
 
 
@@ -79,6 +79,11 @@ def lib_entries(r):
     B = bipartite_random_left_regular(40, 30, 3, seed=r.randint(0, 10 ** 6))
     ent("GraphPigeonholePrinciple(glrd 40 30 3)", lambda K: g.GraphPigeonholePrinciple(B, formula_class=K), B.number_of_edges())
     ent("BinaryPigeonholePrinciple(20,13)", lambda K: g.BinaryPigeonholePrinciple(20, 13, formula_class=K), 20 * 4)
+    ent("BinaryPigeonholePrinciple(5,1)", lambda K: g.BinaryPigeonholePrinciple(5, 1, formula_class=K), 0)
+    ent("BinaryPigeonholePrinciple(3,2)", lambda K: g.BinaryPigeonholePrinciple(3, 2, formula_class=K), 3)
+    ent("BinaryCliqueFormula(K1,1)", lambda K: g.BinaryCliqueFormula(Graph(1), 1, formula_class=K), 0)
+    ent("CPLSFormula(2,1,1)", lambda K: g.CPLSFormula(2, 1, 1, formula_class=K), 2)
+    ent("CPLSFormula(2,2,1)", lambda K: g.CPLSFormula(2, 2, 1, formula_class=K), 4 + 4)
     ent("BinaryPigeonholePrinciple(5,16)", lambda K: g.BinaryPigeonholePrinciple(5, 16, formula_class=K), 5 * 4)
     ent("RelativizedPigeonholePrinciple(6,7,8)", lambda K: g.RelativizedPigeonholePrinciple(6, 7, 8, formula_class=K), 6 * 7 + 7 * 8 + 7)
     ent("CountingPrinciple(12,3)", lambda K: g.CountingPrinciple(12, 3, formula_class=K), math.comb(12, 3))
@@ -248,6 +253,51 @@ def case_library(ctx, rseed, lo, hi):
                 ctx.judged(("lib-chain", label, tuple(map(tuple, chain))), nontrivial=len(T) > 0)
 
 
+def cli_documented_count(tail):
+    """Documented number of variables of a purely numeric command line (None when the help names no closed form)."""
+    sub = tail[0]
+    flags = [t for t in tail[1:] if t.startswith("-") and not t.lstrip("-").isdigit()]
+    nums = [t for t in tail[1:] if t.lstrip("-").isdigit()]
+    if len(nums) + len(flags) != len(tail) - 1:
+        return None                      # graph specifications etc.
+    a = [int(t) for t in nums]
+    bits = lambda m: (m - 1).bit_length() if m >= 1 else 0
+    try:
+        if sub in ("and", "or"):
+            return a[0] + a[1]
+        if sub in ("true", "false"):
+            return 0
+        if sub == "php" and len(a) == 1:
+            return (a[0] + 1) * a[0]
+        if sub == "php" and len(a) == 2:
+            return a[0] * a[1]
+        if sub == "bphp":
+            return a[0] * bits(a[1])
+        if sub == "rphp":
+            return a[0] * a[1] + a[1] * a[2] + a[1]
+        if sub == "count":
+            return math.comb(a[0], a[1])
+        if sub == "parity":
+            return math.comb(a[0], 2)
+        if sub == "cpls":
+            return a[0] * a[1] * a[2] + a[0] * a[1] * bits(a[1]) + a[1] * bits(a[2])
+        if sub == "cliquecoloring":
+            return math.comb(a[0], 2) + a[1] * a[0] + a[0] * a[2]
+        if sub == "ram":
+            return math.comb(a[2], 2)
+        if sub == "vdw":
+            return a[0] if len(a) == 3 else a[0] * (len(a) - 1)
+        if sub == "ptn":
+            return a[0]
+        if sub in ("randkcnf", "randkxor"):
+            return a[1]
+        if sub == "op" and len(a) == 1:
+            return math.comb(a[0], 2) if ("-s" in flags or "--smart" in flags) else a[0] * (a[0] - 1)
+    except (IndexError, ValueError):
+        return None
+    return None
+
+
 def case_cli(ctx, which, lo, hi, rseed):
     r = ctx.rng("c10cli", which, rseed, lo)
     corpus = (realistic() if which == "realistic" else small())[lo:hi]
@@ -290,6 +340,12 @@ def case_cli(ctx, which, lo, hi, rseed):
             report(ctx, where, mon, F)
             if chain:
                 ctx.count("chains_applied")
+            doc = cli_documented_count(tail)
+            if doc is not None:
+                ctx.count("cli_documented_counts_checked")
+                doc = chain_count(doc, chain)
+                if F.number_of_variables() != doc:
+                    ctx.violation("count:cli:%s" % sub, "%s declares %d variables, documented %d" % (where, F.number_of_variables(), doc))
             ctx.judged(("cli", tuple(argv)), nontrivial=len(F) > 0,
                        sample={"argv": argv, "variables": F.number_of_variables(), "clauses": len(F)})
 
@@ -309,8 +365,34 @@ def case_interleave(ctx, rseed, count):
             for _ in range(r.randint(1, 10)):
                 n = F.number_of_variables()
                 op = r.choice(["clause", "clause", "raise", "variable", "block", "comb", "perm", "words", "bip", "graph",
-                               "digraph", "mapping", "binmap", "constraint"])
+                               "digraph", "mapping", "binmap", "constraint", "builder", "builder"])
                 hist.append(op)
+                if op == "builder":
+                    # constraint builders called the documented way (check=True): they may mention fresh variables
+                    top = n + r.choice([0, 1, 2, 4])
+                    if top:
+                        k = r.randint(1, min(4, top))
+                        lits = [r.choice([1, -1]) * v for v in r.sample(range(1, top + 1), k)]
+                        if r.random() < 0.5:
+                            lits[-1] = (1 if lits[-1] > 0 else -1) * top          # make sure the newest variable is mentioned
+                        b = r.choice(["<=", ">=", "<", ">", "==", "!=", "parity", "lmaj", "smaj", "lmin", "smin", "geq", "leq", "eq", "neq"])
+                        hist[-1] = "builder:" + b
+                        c = r.randint(0, k)
+                        if b in ("<=", ">=", "<", ">", "==", "!=") and K is CNF:
+                            ctx.call(F.add_linear, lits, b, c)
+                        elif b in ("<=", ">=", "<", ">", "==") and K is OPB:
+                            ctx.call(F.add_constraint, [(1, l) for l in lits] + [b, c])
+                        elif b == "parity":
+                            ctx.call(F.add_parity, lits, c % 2)
+                        elif b in ("lmaj", "smaj", "lmin", "smin"):
+                            ctx.call(getattr(F, {"lmaj": "add_loose_majority", "smaj": "add_strict_majority",
+                                                 "lmin": "add_loose_minority", "smin": "add_strict_minority"}[b]), lits)
+                        else:
+                            name = {"geq": "cardinality_geq", "leq": "cardinality_leq", "eq": "cardinality_eq", "neq": "cardinality_neq",
+                                    "!=": "cardinality_neq"}[b]
+                            ctx.call(getattr(F, name), lits, c)
+                        ctx.count("builder_insertions")
+                    continue
                 if op == "clause":
                     top = n + r.choice([0, 0, 1, 3])
                     if top:
@@ -389,7 +471,7 @@ def case_repo_tests(ctx):
 
 def workload(tier, seed):
     q = tier == "quick"
-    n = 46
+    n = 54
     for rs in range(1 if q else 4):
         for lo in range(0, n, 3):
             yield "library", {"rseed": seed * 100 + rs, "lo": lo, "hi": lo + 3}
